@@ -92,7 +92,6 @@ def for_self(var, it):
 
 SET_RW = [
     for_self('item', 'self'),
-    ('R-wrapiter', r'\bself\.is_empty\(\)', 'self.data.is_empty()'),
 ]
 
 # loop invariants for the `for item in self.iter() { if !item.test..(..) { return false; } }` shape
@@ -307,13 +306,12 @@ impl TextSelectionSet {
     # Verus would otherwise need the requires on the trait declaration).
     REF_RW = ('R-wrapiter', r'for reftextsel in refset\.iter\(\)', 'for reftextsel in vx_it: refset.data.iter()')
     OTHER_RW = ('R-wrapiter', r'for other in refset\.iter\(\)', 'for other in vx_it: refset.data.iter()')
-    REFSET_EMPTY = ('R-wrapiter', r'\brefset\.is_empty\(\)', 'refset.data.is_empty()')
     u.impl(F, 'impl TestTextSelection for TextSelection', [
         Fn('test', props=P, ret='r', rewrites=[GAP_RW],
            requires=[('wf_self', 'wf(*self)'), ('wf_ref', 'wf(*reftextsel)')],
            ensures=[('equals_spec', 'r == rel(*operator, *self, *reftextsel, resource)')],
            decreases=NEG_DEC),
-        Fn('test_set', props=P, ret='r', rewrites=[GAP_RW, REF_RW, OTHER_RW, REFSET_EMPTY,
+        Fn('test_set', props=P, ret='r', rewrites=[GAP_RW, REF_RW, OTHER_RW,
                                                    ('R-typeann', r'let mut leftmost = None;', 'let mut leftmost: Option<usize> = None;'),
                                                    ('R-typeann', r'let mut rightmost = None;', 'let mut rightmost: Option<usize> = None;')],
            requires=[('wf_self', 'wf(*self)'), ('wf_ref', 'set_wf(refset.data@)'), ('inv_ref', 'refset.inv()')],
@@ -348,7 +346,7 @@ impl TextSelectionSet {
                                ('shape', shape),
                                ('wf', 'set_wf(self.data@) && set_wf(refset.data@) && refset.inv()')])
     NOT_BOUND = '!negated(*operator) && !subject_by_bound(*operator)'
-    SET_RW2 = SET_RW + [('R-wrapiter', r'\bself\.len\(\) != refset\.len\(\)', 'self.data.len() != refset.data.len()'), REFSET_EMPTY]
+    SET_RW2 = SET_RW
     BOUND_HINT = 'proof { lemma_min_begin(self.data@); lemma_max_end(self.data@); }'
     u.impl(F, 'impl TestTextSelection for TextSelectionSet', [
         Fn('test', props=P, ret='r', rewrites=SET_RW,
